@@ -272,7 +272,9 @@ def run_engines(c: dict) -> dict:
 KEYCFG = {"same1": (["k"], ["k"]), "diff1": (["k"], ["j"]), "same2": (["k", "k2"], ["k", "k2"]),
           "diff2": (["k", "k2"], ["j", "j2"]), "mixed2": (["k", "k2"], ["k", "j2"])}
 # non-key columns of (left, right)
-LAYOUT = {"A": (["a"], ["b"]), "B": (["a", "v"], ["b", "v"]), "C": (["a"], ["a"]), "D": (["a"], ["b", "k"]), "V": (["v"], ["v"])}
+LAYOUT = {"A": (["a"], ["b"]), "B": (["a", "v"], ["b", "v"]), "C": (["a"], ["a"]), "D": (["a"], ["b", "k"]), "V": (["v"], ["v"]),
+          # tables WITHOUT payload columns (the keys are the whole table): right, left, both
+          "K": (["a"], []), "L": ([], ["b"]), "KK": ([], [])}
 
 
 def make_case(jt: str, cfg: str, layout: str, ktype: str, L: List[dict], R: List[dict]) -> dict:
@@ -296,7 +298,7 @@ def random_table(rng: random.Random, cols: Sequence[str], keys: Sequence[str], k
 
 def random_case(rng: random.Random) -> dict:
     cfg = rng.choice(["same1", "same1", "diff1", "diff1", "same2", "diff2", "mixed2"])
-    layout = rng.choice(["A", "A", "A", "B", "C"] + (["D"] if cfg == "diff1" else []))
+    layout = rng.choice(["A", "A", "A", "B", "C", "K", "K", "L", "KK"] + (["D"] if cfg == "diff1" else []))
     ktype = rng.choice(["int", "int", "str"])
     jt = rng.choice(JTS)
     lk, rk = KEYCFG[cfg]
